@@ -67,6 +67,42 @@ func c10Scenarios(tier string) []*Scenario {
 			scs = append(scs, c10Scenario(2, pol, 0, ans, "none", true))
 		}
 	}
+	// a hung process: it ignores the SIGTERM sent after failure_threshold failed probes; with shutdown.timeout_seconds it is
+	// killed after that time and then handled by its restart policy
+	for _, pol := range []string{"always", "no"} {
+		pol := pol
+		pc := PC{Name: "a", Restart: pol, Backoff: 1, Lines: []string{"shutdown:", "  timeout_seconds: 2",
+			"readiness_probe:", "  exec:", fmt.Sprintf("    command: %q", probeCmd("a")), "  period_seconds: 1", "  failure_threshold: 2"}}
+		sc := &Scenario{
+			ID:         "c10-hung-process-" + pol,
+			YAML:       projectYAML(nil, pc),
+			Procs:      map[string]*ProcScript{"a": {OnTerm: "ignore"}},
+			Aux:        map[string][]string{probeCmd("a"): {"fail"}},
+			K:          1,
+			TickBudget: 3,
+			Horizon:    9 * time.Second,
+		}
+		sc.Check = func(w *World) []Violation {
+			tr := w.pre()
+			term := findEvent(tr, 0, func(e Event) bool { return e.Kind == "signal" && e.Proc == "a#0" && e.Sig == 15 })
+			endT := w.preEndT() // the observed part of the execution ends here, whether or not anything happened lately
+			if term < 0 || endT-tr[term].T < 4*time.Second {
+				return nil
+			}
+			kill := findEvent(tr, term, func(e Event) bool { return e.Kind == "signal" && e.Proc == "a#0" && e.Sig == 9 })
+			if kill < 0 {
+				return []Violation{viol("C10", "threshold:no-kill", "the process ignored the SIGTERM that followed %d failed probes (t=%v); no SIGKILL after shutdown.timeout_seconds 2 (observed until t=%v, status %s)", 2, tr[term].T, endT, statusAt(tr, "a", len(tr)))}
+			}
+			// (the killed command's death is an event of the environment: the relaunch is due once it has happened)
+			ex := findEvent(tr, kill, func(e Event) bool { return e.Kind == "exit" && e.Proc == "a#0" })
+			if pol == "always" && ex >= 0 && endT-tr[ex].T >= 3*time.Second &&
+				findEvent(tr, ex, func(e Event) bool { return e.Kind == "start" && e.Proc == "a#0" }) < 0 {
+				return []Violation{viol("C10", "no-restart-after-threshold:"+pol, "hung process killed after the probe threshold was not relaunched (policy %s)", pol)}
+			}
+			return nil
+		}
+		scs = append(scs, sc)
+	}
 	// ready_log_line together with a readiness probe: the loader refuses the combination; if it ever loads, Ready
 	// is still only reported after a probe has succeeded (the probe here never does, the line is printed at once)
 	for _, strict := range []bool{false, true} {
